@@ -62,6 +62,20 @@ def programs(pt):
                           a.set(n), twice(a).store_into(r), pt.Return(walk(n - pt.Int(1)) + r.get() + keep.load()))
         return pt.Seq(pt.Log(pt.Itob(walk(pt.Int(3)))), pt.Return(walk(pt.Int(3)) == pt.Int(19)))
 
+    @prog("mutual-recursion-plain-and-abi-output")
+    def _():
+        # a recursion cycle through a plain Subroutine and an ABI-returning routine with an `output`, both with live locals: under the
+        # scratch convention the spill code around each re-entrant call must know whether THAT callee leaves a value
+        @pt.ABIReturnSubroutine
+        def g(n: abi.Uint64, *, output: abi.Uint64):
+            k = pt.ScratchVar(pt.TealType.uint64)
+            return pt.Seq(k.store(n.get() * pt.Int(2)), output.set(pt.If(n.get() == pt.Int(0), pt.Int(1), f(n.get() - pt.Int(1)) + k.load())))
+        @pt.Subroutine(pt.TealType.uint64)
+        def f(x: pt.Expr) -> pt.Expr:
+            a, r, keep = abi.Uint64(), abi.Uint64(), pt.ScratchVar(pt.TealType.uint64)
+            return pt.Seq(keep.store(x + pt.Int(100)), a.set(x), g(a).store_into(r), pt.Return(r.get() + keep.load()))
+        return pt.Seq(pt.Log(pt.Itob(f(pt.Int(2)))), pt.Return(f(pt.Int(2)) == pt.Int(310)))
+
     @prog("plain-byref-after-values")
     def _():
         @pt.Subroutine(pt.TealType.uint64)
@@ -161,6 +175,22 @@ def programs(pt):
                       pt.Return(i.load() == pt.Int(3)))
 
     return out
+
+
+def slow_programs(pt):
+    """programs whose compilation takes ~25 s each on the pinned tree (a self-recursive ABIReturnSubroutine that store_into()s its
+    own result: ReturnedValue.store_into evaluates the callee's declaration while the expression is built); used sparingly"""
+    abi = pt.abi
+
+    def abiret_self_recursive():
+        @pt.ABIReturnSubroutine
+        def padded(n: abi.Uint64, pad: abi.String, *, output: abi.Uint64):
+            m, r = abi.Uint64(), abi.Uint64()
+            return pt.If(n.get() == pt.Int(0)).Then(output.set(pt.Len(pad.get()))).Else(
+                pt.Seq(m.set(n.get() - pt.Int(1)), padded(m, pad).store_into(r), output.set(r.get() + n.get() + pt.Len(pad.get()))))
+        n, s, res = abi.Uint64(), abi.String(), abi.Uint64()
+        return pt.Seq(n.set(pt.Int(3)), s.set("ab"), padded(n, s).store_into(res), pt.Log(pt.Itob(res.get())), pt.Return(res.get() == pt.Int(14)))
+    return [("abiret-self-recursive-mixed-locals", 6, abiret_self_recursive)]
 
 
 def option_matrix(version, thorough=False):
